@@ -1,6 +1,7 @@
 package server
 
 import (
+	"net"
 	"os"
 	"strings"
 
@@ -299,4 +300,57 @@ func VH_C15_auth() {
 	if !client.authd {
 		vassert("C15.failed_auth_gets_error", vhIsErrorReply(string(client.out), false))
 	}
+}
+
+// VH_C15_protected: in protected mode a peer that is not on the loopback interface is refused before any
+// byte is read from it; loopback peers and unprotected servers are served. The REAL connection closure of
+// netServe and the real isProtected run; the peer address has symbolic bytes.
+//verif:cfg use=c08 b_peer_address=loopback_v4|loopback_v6|other|3_symbolic_bytes b_config=protected-mode_option_x_config_x_password_x_bind_host ignorego=1
+func VH_C15_protected() {
+	s := vhAckServer()
+	switch vchoose(3) {
+	case 0:
+		s.opts.ProtectedMode = "no"
+	case 1:
+		s.opts.ProtectedMode = "yes"
+	default:
+		s.opts.ProtectedMode = ""
+	}
+	s.host = [4]string{"", "127.0.0.1", "localhost", "192.168.1.5"}[vchoose(4)]
+	s.config._protectedMode = [2]string{"yes", "no"}[vchoose(2)]
+	if vnondetBool() {
+		s.config._requirePass = "pw"
+	}
+	var addr string
+	switch vchoose(4) {
+	case 0:
+		addr = "127.0.0.1:40000"
+	case 1:
+		addr = "[::1]:40000"
+	case 2:
+		addr = "10.1.2.3:40000"
+	default:
+		addr = vnondetStringN(3) + ".0.0.1:40000" // loopback exactly when the three bytes are "127"
+	}
+	c := vhConnFor(s, 0, []string{"PING"}, nil)
+	c.addr = addr
+	vcallAnonOrSkip(s, c)
+	loopback := strings.HasPrefix(addr, "127.0.0.1:") || strings.HasPrefix(addr, "[::1]:")
+	protected := s.opts.ProtectedMode != "no" &&
+		(s.host == "" || s.host == "127.0.0.1" || s.host == "::1" || s.host == "localhost") &&
+		s.config._protectedMode != "no" && s.config._requirePass == ""
+	vobs("protected", addr, protected, loopback, c.next, c.denied)
+	if protected && !loopback {
+		vassert("C15.protected_peer_refused_before_any_read", c.next == 0 && c.denied && c.closed)
+	} else {
+		vassert("C15.unprotected_or_loopback_peer_is_served", c.next > 0 && !c.denied)
+	}
+}
+
+func vcallAnonOrSkip(s *Server, c *vhConn) {
+	if vnative() {
+		vhNativeServe(s, []*vhConn{c})
+		return
+	}
+	vcallAnon("(*Server).netServe", s, net.Conn(c))
 }
